@@ -1047,23 +1047,23 @@ class ExperimentTopology(Topology):
 
         # all deletes are supposed to be idempotent: an element that went away together
         # with an enclosing pruned element is skipped
-        def still_present(e) -> bool:
-            return e.node_id in self.graph_model.list_all_node_ids()
+        def still_present(e, label: str) -> bool:
+            return self.graph_model.node_exists(node_id=e.node_id, label=label)
 
         for n in nodes:
             self._prune_node(n)
 
         # need parents too
         for c, n in components:
-            if still_present(c):
+            if still_present(c, ABCPropertyGraph.CLASS_Component):
                 self._prune_components(c, n)
 
         for ns in nss:
-            if still_present(ns):
+            if still_present(ns, ABCPropertyGraph.CLASS_NetworkService):
                 self._prune_ns(ns)
 
         for i in interfaces:
-            if still_present(i):
+            if still_present(i, ABCPropertyGraph.CLASS_ConnectionPoint):
                 self._prune_interface(i)
 
 
